@@ -63,14 +63,18 @@ def warm(scratch, env):
                    timeout=300)
 
 
-def launch(prop, tier, base, n_runs, workers, deadline, hard_timeout, scratch, env, tag=''):
+def launch(prop, tier, base, n_runs, workers, deadline, hard_timeout, scratch, env, tag='', block=1):
     procs = []
+    counter = os.path.join(scratch, 'out', '{0}{1}.counter'.format(tag, prop))
+    with open(counter, 'w') as f:
+        f.write('0')
     for w in range(workers):
         out = os.path.join(scratch, 'out', '{0}{1}-{2}.jsonl'.format(tag, prop, w))
         cmd = [PY, '-m', 'pydlsim.worker', '--prop', prop, '--tier', tier, '--base', str(base),
                '--start', str(w), '--stop', str(n_runs), '--step', str(workers),
                '--deadline', str(deadline), '--out', out,
-               '--scratch', os.path.join(scratch, 'work'), '--hard-timeout', str(hard_timeout)]
+               '--scratch', os.path.join(scratch, 'work'), '--hard-timeout', str(hard_timeout),
+               '--counter', counter, '--block', str(block)]
         err = open(os.path.join(scratch, 'out', '{0}{1}-{2}.err'.format(tag, prop, w)), 'w')
         p = subprocess.Popen(cmd, env=env, cwd=scratch, stdout=subprocess.DEVNULL, stderr=err)
         procs.append((p, out, err))
@@ -159,7 +163,7 @@ def run_check(prop, tier, base, mod, workers=None, n_runs=None, deadline=None):
         warm(scratch, env)
         hard = params['deadline']*2.5 + 120
         procs = launch(prop, tier, base, params['runs'], workers, params['deadline'], hard,
-                       scratch, env)
+                       scratch, env, block=params.get('block', 1))
         results, errors, exhausted = collect(procs, hard)
         agg = {}
         nontrivial = set()
@@ -173,6 +177,8 @@ def run_check(prop, tier, base, mod, workers=None, n_runs=None, deadline=None):
                 viols.append((r['i'], v))
         samples = [r['sample'] for r in results[:3] if 'sample' in r]
         wall_runs = sum(r.get('wall_s', 0.0) for r in results)
+        slow = sorted(((round(r.get('wall_s', 0.0), 1), r['i']) for r in results), reverse=True)[:5]
+        print('pydlsim: slowest runs (s, index): %s' % slow)
         # ---- violations: match known findings, minimise, confirm by fresh replay -----
         known = findings.load(os.path.join(VERIF, 'known_findings.jsonl'), prop)
         reported = []
